@@ -20,12 +20,14 @@ const (
 	KNone Kind = iota
 	KZ         // every integer type: Z
 	KBool      // bool
-	KList      // []intN / []uintN / string (its bytes): list Z
+	KList      // []intN / []uintN / [N]intN / string (its bytes) / bytes.Buffer (its unread bytes): list Z
+	KErr       // error: Z (0 = nil, see errCode)
+	KTok       // interface{}: an opaque token, Z (0 = nil)
 )
 
 func (k Kind) Coq() string {
 	switch k {
-	case KZ:
+	case KZ, KErr, KTok:
 		return "Z"
 	case KBool:
 		return "bool"
@@ -97,8 +99,71 @@ func KindOf(ty types.Type) Kind {
 		if _, _, ok := intInfo(u.Elem()); ok {
 			return KList
 		}
+		if KindOf(u.Elem()) == KTok {
+			return KList
+		}
+	case *types.Array:
+		if _, _, ok := intInfo(u.Elem()); ok {
+			return KList
+		}
+	case *types.Interface:
+		if types.Identical(ty, types.Universe.Lookup("error").Type()) {
+			return KErr
+		}
+		if u.NumMethods() == 0 {
+			return KTok
+		}
+	case *types.Struct:
+		if isBytesBuffer(ty) {
+			return KList
+		}
 	}
 	return KNone
+}
+
+// bytes.Buffer is represented by its unread bytes (its methods are the go_buf_* of GoSem.v)
+func isBytesBuffer(ty types.Type) bool {
+	n, ok := ty.(*types.Named)
+	return ok && n.Obj().Pkg() != nil && n.Obj().Pkg().Path() == "bytes" && n.Obj().Name() == "Buffer"
+}
+
+// the element struct of a slice of structs / of pointers to structs ([]*S, []S)
+func structElem(ty types.Type) (*types.Struct, bool) {
+	if ty == nil {
+		return nil, false
+	}
+	sl, ok := ty.Underlying().(*types.Slice)
+	if !ok {
+		return nil, false
+	}
+	el := sl.Elem()
+	if p, ok := el.Underlying().(*types.Pointer); ok {
+		el = p.Elem()
+	}
+	if isBytesBuffer(el) {
+		return nil, false
+	}
+	st, ok := el.Underlying().(*types.Struct)
+	return st, ok
+}
+
+func arrayLen(ty types.Type) (int64, bool) {
+	if ty == nil {
+		return 0, false
+	}
+	a, ok := ty.Underlying().(*types.Array)
+	if !ok {
+		return 0, false
+	}
+	return a.Len(), true
+}
+
+// the zero value of a variable of type ty
+func zeroOf(ty types.Type) string {
+	if n, ok := arrayLen(ty); ok {
+		return fmt.Sprintf("(go_zeros %d)", n)
+	}
+	return KindOf(ty).zero()
 }
 
 func pow2(n int) string {
@@ -149,6 +214,7 @@ type Func struct {
 	Results []Kind
 	ResGo   []types.Type
 	Extern  bool     // "F#extern": not translated; calls of F are inputs of their callers
+	Bind    string   // "F@T": the interface parameters of F that T implements stand for a value of type T
 	Prefix  int      // > 0: only the first Prefix statements of the body are translated ("F#prefix")
 	Vars    []string // prefix: the variables handed on (Reached (...))
 	Written []*Input // the fields it assigns (their final values follow the results)
@@ -175,21 +241,29 @@ func (f *Func) ResType() string {
 
 // Translator holds the functions translated so far (callees must come first).
 type Translator struct {
-	Pkg    *Pkg // the package the unqualified names belong to
-	others map[string]*Pkg
-	Extern map[string]bool // functions declared "F#extern": what their calls return is an input
-	Prefix string
-	Funcs  map[string]*Func // by key()
-	Order  []*Func
+	Pkg     *Pkg // the package the unqualified names belong to
+	others  map[string]*Pkg
+	Extern  map[string]bool    // functions declared "F#extern": what their calls return is an input
+	ExternW map[string]bool    // ... declared "F#externw": they also write their slice arguments
+	Errs    map[string]*ErrVar // the error variables met, by Gallina name
+	Prefix  string
+	Funcs   map[string]*Func // by key()
+	Order   []*Func
 }
 
 func New(p *Pkg, prefix string) *Translator {
-	return &Translator{Pkg: p, others: map[string]*Pkg{}, Extern: map[string]bool{}, Prefix: prefix, Funcs: map[string]*Func{}}
+	T := &Translator{Pkg: p, others: map[string]*Pkg{}, Extern: map[string]bool{}, ExternW: map[string]bool{}, Prefix: prefix, Funcs: map[string]*Func{}}
+	T.intrinsics()
+	return T
 }
 
 func key(f *types.Func) string { return strings.Replace(f.FullName(), "*", "", -1) }
 
-type bind struct{ name, term string }
+// something to put in front of a term: `bind (term) (fun name => ...)`, or `let name := term in ...`
+type bind struct {
+	name, term string
+	let        bool
+}
 
 type cont func() string
 
@@ -234,9 +308,14 @@ type ft struct {
 	written  []*Input     // fields the function assigns, in source order
 	oracles  map[*ast.CallExpr][]*Input
 	orcl     []*Input
-	retIndex map[*ast.ReturnStmt]int // prefix mode: the return statements of the function, numbered in source order
-	prefix   int                     // prefix mode: number of statements
-	vars     []*types.Var            // prefix mode: the variables handed on
+	retIndex map[*ast.ReturnStmt]int   // prefix mode: the return statements of the function, numbered in source order
+	prefix   int                       // prefix mode: number of statements
+	scalar   map[*types.Var]*Input     // the inputs standing for parameters of a representable type
+	bound    map[*types.Var]types.Type // "F@T": interface parameters standing for a T
+	listUsed map[string]bool           // field paths of type []interface{} used as lists (not just under len)
+	stmtCall *ast.CallExpr             // the call that may write (it is a statement, or the only right-hand side)
+	writePos map[string][]token.Pos    // where each list-valued location (by Gallina name) is written through
+	vars     []*types.Var              // prefix mode: the variables handed on
 }
 
 func (t *ft) fail(format string, a ...interface{}) string {
@@ -284,6 +363,12 @@ func (t *ft) paramIndex(v *types.Var) int {
 // a selector chain of fields rooted at a parameter: p, p.f, p.f.g, (*p).f
 func (t *ft) pathOf(e ast.Expr) (param int, path []string, leaf types.Type, ok bool) {
 	switch x := e.(type) {
+	case *embedExpr:
+		i, p, _, ok := t.pathOf(x.Expr)
+		if !ok {
+			return 0, nil, nil, false
+		}
+		return i, append(append([]string{}, p...), x.names...), x.ty, true
 	case *ast.ParenExpr:
 		return t.pathOf(x.X)
 	case *ast.StarExpr:
@@ -296,6 +381,9 @@ func (t *ft) pathOf(e ast.Expr) (param int, path []string, leaf types.Type, ok b
 		i := t.paramIndex(v)
 		if i < 0 {
 			return 0, nil, nil, false
+		}
+		if bt := t.bound[v]; bt != nil {
+			return i, nil, bt, true
 		}
 		return i, nil, v.Type(), true
 	case *ast.SelectorExpr:
@@ -314,19 +402,32 @@ func (t *ft) pathOf(e ast.Expr) (param int, path []string, leaf types.Type, ok b
 
 // the input standing for a field path (or for the length of a slice of non-integers)
 func (t *ft) input(param int, path []string, lenOnly bool, ty types.Type) string {
-	k := fmt.Sprintf("%d.%s", param, strings.Join(path, "."))
+	if lenOnly {
+		if t.listUsed[inputKey(param, path)] { // the slice itself is an input: its length is computed
+			return "(go_len " + t.input(param, path, false, ty) + ")"
+		}
+		return t.inputAs(param, append(append([]string{}, path...), "#len"), ty, KZ)
+	}
+	kind := KindOf(ty)
+	if kind == KNone {
+		return t.fail("value of unsupported type %s", ty)
+	}
+	return t.inputAs(param, path, ty, kind)
+}
+
+// the input for this path, of the given kind (paths through "[]" are the fields of the
+// elements of a slice of structs: one list per field)
+func (t *ft) inputAs(param int, path []string, ty types.Type, kind Kind) string {
+	lenOnly := len(path) > 0 && path[len(path)-1] == "#len"
+	if lenOnly {
+		path = path[:len(path)-1]
+	}
+	k := inputKey(param, path)
 	if lenOnly {
 		k += "#len"
 	}
 	in := t.inputs[k]
 	if in == nil {
-		kind := KindOf(ty)
-		if lenOnly {
-			kind = KZ
-		}
-		if kind == KNone {
-			return t.fail("value of unsupported type %s", ty)
-		}
 		base := "v_"
 		if lenOnly {
 			base = "n_"
@@ -336,7 +437,9 @@ func (t *ft) input(param int, path []string, lenOnly bool, ty types.Type) string
 			base += fmt.Sprintf("arg%d", param)
 		}
 		for _, p := range path {
-			base += "_" + p
+			if p != "[]" {
+				base += "_" + p
+			}
 		}
 		in = &Input{Name: t.unique(base), Kind: kind, Param: param, Path: path, LenOnly: lenOnly, Type: ty}
 		t.inputs[k] = in
@@ -388,6 +491,9 @@ func (t *ft) isConst(e ast.Expr) (constant.Value, bool) {
 }
 
 func (t *ft) typeOf(e ast.Expr) types.Type {
+	if x, ok := e.(*embedExpr); ok {
+		return x.ty
+	}
 	if tv, ok := t.info.Types[e]; ok {
 		return tv.Type
 	}
@@ -415,6 +521,12 @@ func (t *ft) expr(e ast.Expr) string {
 		}
 		return t.fail("constant of unsupported kind: %s", v.String())
 	}
+	if isNil(t.info, e) {
+		return t.fail("nil in a place where its type is not known to the translator")
+	}
+	if v, ok := t.errVar(e); ok {
+		return t.T.errCode(v)
+	}
 	switch x := e.(type) {
 	case *ast.ParenExpr:
 		return t.expr(x.X)
@@ -433,7 +545,15 @@ func (t *ft) expr(e ast.Expr) string {
 			return t.fail("package-level variable %s", x.Name)
 		}
 		return t.fail("unsupported variable %s", x.Name)
+	case *embedExpr:
+		if p, path, leaf, ok := t.pathOf(x); ok && KindOf(leaf) != KNone {
+			return t.input(p, path, false, leaf)
+		}
+		return t.fail("unsupported embedded field")
 	case *ast.SelectorExpr:
+		if l, _, idx, ok := t.elemField(x); ok { // q[i].f
+			return t.bindTmp(fmt.Sprintf("go_index %s %s", l, t.expr(idx)))
+		}
 		if p, path, leaf, ok := t.pathOf(x); ok {
 			if KindOf(leaf) == KNone {
 				return t.fail("field %s of unsupported type %s", x.Sel.Name, leaf)
@@ -448,14 +568,22 @@ func (t *ft) expr(e ast.Expr) string {
 		l, i := t.expr(x.X), t.expr(x.Index)
 		return t.bindTmp(fmt.Sprintf("go_index %s %s", l, i))
 	case *ast.SliceExpr:
-		if KindOf(t.typeOf(x.X)) != KList || x.High != nil || x.Max != nil || x.Slice3 {
-			return t.fail("slice expression other than s[i:] of an integer slice") // s[:j] depends on cap(s)
+		if KindOf(t.typeOf(x.X)) != KList || x.Max != nil || x.Slice3 {
+			return t.fail("slice expression s[i:j:k], or of a value that is not a list")
 		}
-		l, lo := t.expr(x.X), "0"
+		l := t.expr(x.X)
+		switch {
+		case x.Low == nil && x.High == nil:
+			return l // s[:], a[:]
+		case x.High == nil:
+			return t.bindTmp(fmt.Sprintf("go_slice_from %s %s", l, t.expr(x.Low)))
+		}
+		lo := "0"
 		if x.Low != nil {
 			lo = t.expr(x.Low)
 		}
-		return t.bindTmp(fmt.Sprintf("go_slice_from %s %s", l, lo))
+		// beyond len(s) the result depends on cap(s), which the lists do not record: Panic (see RULES)
+		return t.bindTmp(fmt.Sprintf("go_slice %s %s %s", l, lo, t.expr(x.High)))
 	case *ast.CallExpr:
 		return t.call(x)
 	case *ast.UnaryExpr:
@@ -481,18 +609,45 @@ func (t *ft) expr(e ast.Expr) string {
 		if x.Op == token.LAND || x.Op == token.LOR {
 			return t.shortCircuit(x)
 		}
-		a, b := t.expr(x.X), t.expr(x.Y)
+		a, b := t.exprAs(x.X, t.typeOf(x.Y)), t.exprAs(x.Y, t.typeOf(x.X))
 		return t.binop(x.Op, t.typeOf(e), x.X, x.Y, a, b)
 	}
 	return t.fail("unsupported expression %T", e)
+}
+
+// e where a value of type ty is expected (this is how nil gets its meaning)
+func (t *ft) exprAs(e ast.Expr, ty types.Type) string {
+	if isNil(t.info, e) {
+		switch KindOf(ty) {
+		case KErr, KTok:
+			return "0"
+		case KList:
+			if _, isSl := ty.Underlying().(*types.Slice); isSl {
+				return "nil" // a nil slice is the empty list (nil and empty are not told apart)
+			}
+		}
+		return t.fail("nil of type %s", ty)
+	}
+	return t.expr(e)
 }
 
 func (t *ft) bindTmp(term string) string {
 	t.effect = true
 	t.effects++
 	n := t.fresh("t")
-	t.pre = append(t.pre, bind{n, term})
+	t.pre = append(t.pre, bind{name: n, term: term})
 	return n
+}
+
+// bind the outcome term to the given name or pattern (a variable that is updated in place)
+func (t *ft) bindAs(name, term string) {
+	t.effect = true
+	t.effects++
+	t.pre = append(t.pre, bind{name: name, term: term})
+}
+
+func (t *ft) letAs(name, term string) {
+	t.pre = append(t.pre, bind{name: name, term: term, let: true})
 }
 
 // a && b, a || b: b is evaluated (and can panic) only when a does not decide
@@ -520,6 +675,9 @@ func (t *ft) shortCircuit(x *ast.BinaryExpr) string {
 // x op y with result type ty; a, b are the translated operands
 func (t *ft) binop(op token.Token, ty types.Type, xe, ye ast.Expr, a, b string) string {
 	xk := KindOf(t.typeOf(xe))
+	if isNil(t.info, xe) {
+		xk = KindOf(t.typeOf(ye))
+	}
 	switch op {
 	case token.EQL, token.NEQ:
 		var r string
@@ -528,6 +686,18 @@ func (t *ft) binop(op token.Token, ty types.Type, xe, ye ast.Expr, a, b string) 
 			r = fmt.Sprintf("(%s =? %s)", a, b)
 		case KBool:
 			r = fmt.Sprintf("(Bool.eqb %s %s)", a, b)
+		case KErr, KTok: // against nil or an error variable only (other comparisons can panic, or compare pointers)
+			_, xv := t.errVar(xe)
+			_, yv := t.errVar(ye)
+			if !(isNil(t.info, xe) || isNil(t.info, ye) || xv || yv) {
+				return t.fail("comparison of two values of type %s", t.typeOf(xe))
+			}
+			r = fmt.Sprintf("(%s =? %s)", a, b)
+		case KList:
+			if _, isSl := t.typeOf(xe).Underlying().(*types.Slice); isSl && (isNil(t.info, xe) || isNil(t.info, ye)) {
+				return t.fail("comparison of a slice with nil (nil and empty slices are not told apart)")
+			}
+			return t.fail("comparison of values of type %s", t.typeOf(xe))
 		default:
 			return t.fail("comparison of values of type %s", t.typeOf(xe))
 		}
@@ -612,6 +782,11 @@ func (t *ft) call(x *ast.CallExpr) string {
 		if len(x.Args) != 1 {
 			return t.fail("conversion with %d args", len(x.Args))
 		}
+		if KindOf(tv.Type) == KList && KindOf(t.typeOf(x.Args[0])) == KList && !isBytesBuffer(tv.Type) {
+			if _, isArr := arrayLen(tv.Type); !isArr { // []byte(s), string(b), V1Header(b): the same list
+				return t.expr(x.Args[0])
+			}
+		}
 		if _, _, ok := intInfo(tv.Type); !ok {
 			return t.fail("conversion to non-integer type %s", tv.Type)
 		}
@@ -623,69 +798,81 @@ func (t *ft) call(x *ast.CallExpr) string {
 	if x.Ellipsis.IsValid() {
 		return t.fail("variadic call")
 	}
-	var obj types.Object
-	var recv ast.Expr
-	switch f := unparen(x.Fun).(type) {
-	case *ast.Ident:
-		obj = t.info.Uses[f]
-	case *ast.SelectorExpr:
-		if sel := t.info.Selections[f]; sel != nil {
-			if sel.Kind() != types.MethodVal {
-				return t.fail("call of a function value")
-			}
-			obj, recv = sel.Obj(), f.X
-		} else {
-			obj = t.info.Uses[f.Sel]
-		}
-	}
-	if b, ok := obj.(*types.Builtin); ok {
-		switch b.Name() {
-		case "len":
-			a := x.Args[0]
-			if KindOf(t.typeOf(a)) == KList {
-				return "(go_len " + t.expr(a) + ")"
-			}
-			if _, isSlice := t.typeOf(a).Underlying().(*types.Slice); isSlice {
-				if p, path, leaf, ok := t.pathOf(a); ok {
-					return t.input(p, path, true, leaf)
+	fo, recv, builtin := t.resolve(x)
+	switch builtin {
+	case "":
+	case "len":
+		a := x.Args[0]
+		if KindOf(t.typeOf(a)) == KList {
+			if tokList(t.typeOf(a)) {
+				if p, path, leaf, ok := t.pathOf(a); ok && !t.listUsed[inputKey(p, path)] {
+					return t.input(p, path, true, leaf) // a slice of interface{} used for its length only
 				}
 			}
-			return t.fail("len of a value of type %s", t.typeOf(a))
-		case "min", "max":
-			if KindOf(t.typeOf(x)) != KZ || len(x.Args) == 0 {
-				break
-			}
-			r := t.expr(x.Args[0])
-			for _, a := range x.Args[1:] {
-				r = fmt.Sprintf("(Z.%s %s %s)", b.Name(), r, t.expr(a))
-			}
-			return r
+			return "(go_len " + t.expr(a) + ")"
 		}
-		return t.fail("builtin %s", b.Name())
+		if _, isSlice := t.typeOf(a).Underlying().(*types.Slice); isSlice {
+			if p, path, leaf, ok := t.pathOf(a); ok {
+				return t.input(p, path, true, leaf)
+			}
+		}
+		return t.fail("len of a value of type %s", t.typeOf(a))
+	case "min", "max":
+		if KindOf(t.typeOf(x)) != KZ || len(x.Args) == 0 {
+			return t.fail("builtin %s", builtin)
+		}
+		r := t.expr(x.Args[0])
+		for _, a := range x.Args[1:] {
+			r = fmt.Sprintf("(Z.%s %s %s)", builtin, r, t.expr(a))
+		}
+		return r
+	case "make":
+		if _, isSl := t.typeOf(x).Underlying().(*types.Slice); !isSl || KindOf(t.typeOf(x)) != KList || len(x.Args) != 2 {
+			return t.fail("make other than make([]T, n) of a slice of integers")
+		}
+		return t.bindTmp("go_make " + t.expr(x.Args[1]))
+	case "copy":
+		if x != t.stmtCall {
+			return t.fail("copy inside an expression")
+		}
+		d, ok := t.dest(x.Args[0])
+		if !ok || KindOf(t.typeOf(x.Args[1])) != KList {
+			return t.fail("copy into something that is not (a window of) a local slice, parameter or field")
+		}
+		w0 := t.window(d)
+		src := t.expr(x.Args[1])
+		w, n := t.fresh("t"), t.fresh("t")
+		t.letAs("'"+tuple([]string{w, n}), fmt.Sprintf("go_copy %s %s", w0, src))
+		t.storeBack(d, w)
+		return n
+	default:
+		return t.fail("builtin %s", builtin)
 	}
-	fo, ok := obj.(*types.Func)
-	if !ok {
+	if fo == nil {
 		return t.fail("unsupported call")
 	}
-	callee := t.T.Funcs[key(fo)]
+	actual := x.Args
+	if recv != nil {
+		actual = append([]ast.Expr{recv}, x.Args...)
+	}
+	if v, ok := t.errorf(fo, x); ok {
+		return v
+	}
+	callee := t.calleeOf(fo, actual)
 	if callee == nil || callee.Err != nil {
 		if v, ok := t.oracle(x, fo, recv); ok {
 			return v
 		}
 		return t.fail("call of untranslated function %s", strings.TrimPrefix(key(fo), fo.Pkg().Path()+"."))
 	}
-	if len(callee.Written) > 0 {
-		return t.fail("call of %s, which writes fields", callee.Name)
+	if len(callee.Written) > 0 && x != t.stmtCall {
+		return t.fail("call of %s, which writes memory, inside an expression", callee.Name)
 	}
 	if callee.Prefix > 0 {
 		return t.fail("call of a fragment")
 	}
 	if sig := fo.Type().(*types.Signature); sig.Variadic() {
 		return t.fail("variadic call")
-	}
-	actual := x.Args
-	if recv != nil {
-		actual = append([]ast.Expr{recv}, x.Args...)
 	}
 	if len(actual) != len(callee.Params) {
 		return t.fail("call of %s with %d arguments", callee.Name, len(actual))
@@ -700,25 +887,90 @@ func (t *ft) call(x *ast.CallExpr) string {
 		}
 	}
 	var args []string
+	dests := map[*Input]*dest{}
 	for _, in := range callee.Inputs {
 		a := actual[in.Param]
-		if len(in.Path) == 0 && !in.LenOnly {
-			args = append(args, t.expr(a))
-			continue
+		switch {
+		case in.Oracle != "":
+			return t.fail("call of %s, which calls external functions", callee.Name)
+		case len(in.Path) == 0 && !in.LenOnly && in.Written: // a slice the callee writes: (a window of) a list of ours
+			d, ok := t.dest(a)
+			if !ok {
+				return t.fail("argument of %s that the callee writes is not (a window of) a local slice, parameter or field", callee.Name)
+			}
+			dests[in] = d
+			args = append(args, t.window(d))
+		case len(in.Path) == 0 && !in.LenOnly:
+			args = append(args, t.exprAs(a, in.Type))
+		default:
+			p, path, _, ok := t.pathOf(a)
+			if !ok {
+				return t.fail("argument of %s that is not a parameter or a field of one", callee.Name)
+			}
+			full := append(append([]string{}, path...), in.Path...)
+			if in.LenOnly {
+				args = append(args, t.input(p, full, true, in.Type))
+			} else {
+				args = append(args, t.inputAs(p, full, in.Type, in.Kind))
+			}
 		}
-		p, path, _, ok := t.pathOf(a)
-		if !ok {
-			return t.fail("argument of %s that is not a parameter or a field of one", callee.Name)
-		}
-		args = append(args, t.input(p, append(append([]string{}, path...), in.Path...), in.LenOnly, in.Type))
 	}
 	term := callee.Coq
+	if strings.Contains(term, "go_err_io_EOF") {
+		t.T.errCodeNamed("io", "io", "EOF")
+	}
+	for in, d := range dests { // two arguments sharing the memory that is written: not what the callee was translated for
+		for _, a := range actual {
+			if d2, ok := t.peekBase(a); ok && d2 == d.base && a != actual[in.Param] {
+				return t.fail("arguments of %s share the list %s, which it writes", callee.Name, d.base)
+			}
+		}
+	}
 	if callee.Fuel {
 		t.useFuel()
 		term += " fuel"
 	}
 	if len(args) > 0 {
 		term += " " + strings.Join(args, " ")
+	}
+	if len(callee.Written) > 0 { // results, then the new contents of what it wrote
+		var res, pat []string
+		for range callee.ResGo {
+			res = append(res, t.fresh("t"))
+		}
+		pat = append(pat, res...)
+		var back []func()
+		for _, w := range callee.Written {
+			switch d := dests[w]; {
+			case d == nil: // a field of a struct argument: our input for that field
+				p, path, _, _ := t.pathOf(actual[w.Param])
+				full := append(append([]string{}, path...), w.Path...)
+				in := t.inputs[inputKey(p, full)]
+				if in == nil || !in.Written {
+					return t.fail("internal: field written by %s not registered", callee.Name)
+				}
+				pat = append(pat, in.Name)
+			case d.whole():
+				pat = append(pat, d.base)
+			default:
+				w := t.fresh("t")
+				pat = append(pat, w)
+				back = append(back, func() { t.storeBack(d, w) })
+			}
+		}
+		name := pat[0]
+		if len(pat) > 1 {
+			name = "'" + tuple(pat)
+		}
+		if callee.Monadic {
+			t.bindAs(name, term)
+		} else {
+			t.letAs(name, "("+term+")")
+		}
+		for _, f := range back {
+			f()
+		}
+		return tuple(res)
 	}
 	if callee.Monadic {
 		return t.bindTmp(term)
@@ -727,6 +979,59 @@ func (t *ft) call(x *ast.CallExpr) string {
 		term = "(" + term + ")"
 	}
 	return term
+}
+
+// the list an argument expression is (a window of), without evaluating anything
+func (t *ft) peekBase(e ast.Expr) (string, bool) {
+	switch x := unparen(e).(type) {
+	case *ast.SliceExpr:
+		return t.peekBase(x.X)
+	case *ast.Ident:
+		if v, ok := t.info.Uses[x].(*types.Var); ok {
+			if n, ok := t.names[v]; ok && KindOf(v.Type()) == KList {
+				return n, true
+			}
+		}
+	case *ast.SelectorExpr, *embedExpr:
+		if p, path, leaf, ok := t.pathOf(x); ok && len(path) > 0 && KindOf(leaf) == KList {
+			return t.input(p, path, false, leaf), true
+		}
+	}
+	return "", false
+}
+
+// a slice of interface{} values
+func tokList(ty types.Type) bool {
+	sl, ok := ty.Underlying().(*types.Slice)
+	return ok && KindOf(sl.Elem()) == KTok
+}
+
+// the current content of a destination window, as a term
+func (t *ft) window(d *dest) string {
+	switch {
+	case d.whole():
+		return d.base
+	case d.hi == "":
+		return t.bindTmp(fmt.Sprintf("go_slice_from %s %s", d.base, d.lo))
+	}
+	return t.bindTmp(fmt.Sprintf("go_slice %s %s %s", d.base, d.lo, d.hi))
+}
+
+// fmt.Errorf(...) / errors.New(...): some non-nil error (code 1); the arguments are evaluated
+func (t *ft) errorf(fo *types.Func, x *ast.CallExpr) (string, bool) {
+	if k := key(fo); k != "fmt.Errorf" && k != "errors.New" {
+		return "", false
+	}
+	for i, a := range x.Args {
+		if _, isConst := t.isConst(a); isConst {
+			continue
+		}
+		if i == 0 {
+			return t.fail("error message that is not a constant"), true
+		}
+		t.expr(a)
+	}
+	return "1", true
 }
 
 // the full name of the function or method a call invokes ("" if it is not a declared one)
@@ -768,61 +1073,113 @@ func (t *ft) ignored(x *ast.CallExpr) bool {
 	return true
 }
 
-// a call of a package-level function declared "F#extern", with integer/bool arguments
-// and results, outside any loop: its results are inputs of the definition (x_<name>_<k>: "what
-// this call returned"); the arguments are still evaluated.  ASSUMED: the function does not
-// touch the fields the translated function reads or writes.
+// a call of a function or method declared "F#extern" / "T.M#extern", outside any loop: its
+// results are inputs of the definition (x_<name>_<k>: "what this call returned").  Arguments of
+// a representable type are still evaluated; any other argument, and the receiver, must be a
+// plain name.  Declared "#externw", it also writes its slice arguments: their new contents are
+// inputs as well (x_<name>_<k>_w<i>, ASSUMED of the length of the argument).  ASSUMED: the
+// function does not touch anything else the translated function reads or writes.
 func (t *ft) oracle(x *ast.CallExpr, fo *types.Func, recv ast.Expr) (string, bool) {
 	sig := fo.Type().(*types.Signature)
-	if !t.T.Extern[key(fo)] || recv != nil || sig.Recv() != nil || sig.Variadic() || sig.Results().Len() == 0 {
+	if !t.T.Extern[key(fo)] || sig.Variadic() {
 		return "", false
 	}
 	if len(t.touched) > 0 {
 		return t.fail("call of the external function %s inside a loop", fo.Name()), true
 	}
-	for i := 0; i < sig.Params().Len(); i++ {
-		if k := KindOf(sig.Params().At(i).Type()); k != KZ && k != KBool {
-			return "", false
-		}
+	if recv != nil && !harmless(recv) {
+		return t.fail("call of the external method %s on something that is not a plain name", fo.Name()), true
 	}
 	for i := 0; i < sig.Results().Len(); i++ {
-		if k := KindOf(sig.Results().At(i).Type()); k != KZ && k != KBool {
-			return "", false
+		if KindOf(sig.Results().At(i).Type()) == KNone {
+			return t.fail("external function %s with a result of type %s", fo.Name(), sig.Results().At(i).Type()), true
 		}
 	}
-	for _, a := range x.Args {
-		t.expr(a) // evaluated for its panics
+	writes := t.T.ExternW[key(fo)]
+	if writes && x != t.stmtCall {
+		return t.fail("call of %s, which writes memory, inside an expression", fo.Name()), true
+	}
+	var dests []*dest
+	for i, a := range x.Args {
+		switch k := KindOf(t.typeOf(a)); {
+		case k == KList && writes:
+			d, ok := t.dest(a)
+			if !ok {
+				return t.fail("argument %d of %s is not (a window of) a local slice, parameter or field", i, fo.Name()), true
+			}
+			t.window(d) // evaluated for its panics
+			dests = append(dests, d)
+		case k != KNone || isNil(t.info, a):
+			if !isNil(t.info, a) {
+				t.expr(a) // evaluated for its panics
+			}
+		case !harmless(a):
+			return t.fail("argument %d of the external function %s is not a plain name", i, fo.Name()), true
+		}
 	}
 	ins := t.oracles[x]
 	if ins == nil {
 		n := 1
+		seen := map[string]bool{}
 		for _, o := range t.orcl {
-			if strings.HasPrefix(o.Oracle, fo.Name()+"#") {
+			if strings.HasPrefix(o.Oracle, fo.Name()+"#") && !seen[o.Oracle] {
+				seen[o.Oracle] = true
 				n++
 			}
 		}
+		tag := fmt.Sprintf("%s#%d", fo.Name(), n)
 		for i := 0; i < sig.Results().Len(); i++ {
 			name := fmt.Sprintf("x_%s_%d", fo.Name(), n)
 			if sig.Results().Len() > 1 {
 				name += fmt.Sprintf("_%d", i+1)
 			}
-			in := &Input{Name: t.unique(name), Kind: KindOf(sig.Results().At(i).Type()), Param: -1, Type: sig.Results().At(i).Type(),
-				Oracle: fmt.Sprintf("%s#%d", fo.Name(), n)}
+			in := &Input{Name: t.unique(name), Kind: KindOf(sig.Results().At(i).Type()), Param: -1, Type: sig.Results().At(i).Type(), Oracle: tag}
+			ins = append(ins, in)
+			t.orcl = append(t.orcl, in)
+		}
+		for i := range dests {
+			in := &Input{Name: t.unique(fmt.Sprintf("x_%s_%d_w%d", fo.Name(), n, i+1)), Kind: KList, Param: -1, Oracle: tag, Written: true}
 			ins = append(ins, in)
 			t.orcl = append(t.orcl, in)
 		}
 		t.oracles[x] = ins
 	}
 	var names []string
-	for _, in := range ins {
-		names = append(names, in.Name)
+	for i, in := range ins {
+		if i < sig.Results().Len() {
+			names = append(names, in.Name)
+		} else {
+			t.storeBack(dests[i-sig.Results().Len()], in.Name)
+		}
+	}
+	if len(names) == 0 {
+		return "tt", true
 	}
 	return tuple(names), true
+}
+
+// the call an expression consists of, up to parentheses and unary operators (f(x), !f(x)):
+// the only place besides a statement of its own where a call may write memory
+func soleCall(e ast.Expr) *ast.CallExpr {
+	for {
+		switch x := e.(type) {
+		case *ast.ParenExpr:
+			e = x.X
+		case *ast.UnaryExpr:
+			e = x.X
+		case *ast.CallExpr:
+			return x
+		default:
+			return nil
+		}
+	}
 }
 
 // a name or a selector chain of names: evaluating it has no effect
 func harmless(e ast.Expr) bool {
 	switch x := e.(type) {
+	case *embedExpr:
+		return harmless(x.Expr)
 	case *ast.Ident:
 		return true
 	case *ast.ParenExpr:
@@ -835,11 +1192,17 @@ func harmless(e ast.Expr) bool {
 
 func wrapBinds(bs []bind, body string) string {
 	var b strings.Builder
+	closing := 0
 	for _, x := range bs {
+		if x.let {
+			fmt.Fprintf(&b, "let %s := %s in\n", x.name, x.term)
+			continue
+		}
 		fmt.Fprintf(&b, "bind (%s) (fun %s =>\n", x.term, x.name)
+		closing++
 	}
 	b.WriteString(body)
-	b.WriteString(strings.Repeat(")", len(bs)))
+	b.WriteString(strings.Repeat(")", closing))
 	return b.String()
 }
 
@@ -893,37 +1256,44 @@ func (t *ft) lhs(e ast.Expr) string {
 
 // p.f[.g] on the left of an assignment: the input standing for that field
 func (t *ft) writtenPath(e ast.Expr) *Input {
-	if _, isSel := unparen(e).(*ast.SelectorExpr); !isSel {
+	_, isSel := unparen(e).(*ast.SelectorExpr)
+	_, isEmb := e.(*embedExpr)
+	if !isSel && !isEmb {
 		return nil
 	}
 	p, path, leaf, ok := t.pathOf(e)
 	if !ok || len(path) == 0 || KindOf(leaf) == KNone {
 		return nil
 	}
+	if _, byValue := t.fn.Params[p].Type().Underlying().(*types.Struct); byValue {
+		t.fail("assignment to a field of %s, a struct passed by value", t.fn.Params[p].Name())
+		return nil
+	}
 	t.input(p, path, false, leaf)
 	return t.inputs[fmt.Sprintf("%d.%s", p, strings.Join(path, "."))]
 }
 
-// the fields assigned anywhere in the given statements, in source order
+// the fields assigned, and the parameter slices written through, anywhere in the given
+// statements, in source order
 func (t *ft) collectWritten(list []ast.Stmt) {
+	var nodes []ast.Node
 	for _, st := range list {
-		ast.Inspect(st, func(n ast.Node) bool {
-			var lhs []ast.Expr
-			switch y := n.(type) {
-			case *ast.AssignStmt:
-				lhs = y.Lhs
-			case *ast.IncDecStmt:
-				lhs = []ast.Expr{y.X}
-			}
-			for _, l := range lhs {
-				if in := t.writtenPath(l); in != nil && !in.Written {
-					in.Written = true
-					t.written = append(t.written, in)
-				}
-			}
-			return true
-		})
+		nodes = append(nodes, st)
 	}
+	t.targets(nodes, func(v *types.Var, through bool, pos token.Pos) {
+		if through && KindOf(v.Type()) == KList {
+			n := t.declare(v) // (named now, so that the aliasing check sees the write)
+			t.writePos[n] = append(t.writePos[n], pos)
+		}
+	}, func(in *Input, through bool, pos token.Pos) {
+		if !in.Written {
+			in.Written = true
+			t.written = append(t.written, in)
+		}
+		if through {
+			t.writePos[in.Name] = append(t.writePos[in.Name], pos)
+		}
+	})
 }
 
 func (t *ft) writtenNames() []string {
@@ -936,9 +1306,28 @@ func (t *ft) writtenNames() []string {
 
 func (t *ft) assign(lhs []ast.Expr, rhs []ast.Expr, next cont) string {
 	return t.seq(func() string {
+		if len(rhs) == 1 {
+			t.stmtCall = soleCall(rhs[0])
+		}
+		elem := false
+		for _, l := range lhs {
+			if _, isIx := unparen(l).(*ast.IndexExpr); isIx {
+				elem = true
+			}
+			if _, _, _, ok := t.elemField(l); ok {
+				elem = true
+			}
+		}
+		if elem {
+			return t.assignElems(lhs, rhs, next)
+		}
 		var vals []string
-		for _, r := range rhs {
-			vals = append(vals, t.expr(r))
+		for i, r := range rhs {
+			if len(rhs) == len(lhs) {
+				vals = append(vals, t.exprAs(r, t.typeOf(lhs[i])))
+			} else {
+				vals = append(vals, t.expr(r))
+			}
 		}
 		var names []string
 		for _, l := range lhs {
@@ -952,6 +1341,90 @@ func (t *ft) assign(lhs []ast.Expr, rhs []ast.Expr, next cont) string {
 		}
 		return fmt.Sprintf("let '%s := %s in\n%s", tuple(names), tuple(vals), next())
 	})
+}
+
+// an assignment with s[i] or q[i].f (or q[i], q a slice of structs) on its left: the operands
+// and the right-hand sides first, then the assignments from left to right (Go's two phases)
+func (t *ft) assignElems(lhs []ast.Expr, rhs []ast.Expr, next cont) string {
+	if len(lhs) != len(rhs) {
+		return t.fail("assignment of several results to slice elements")
+	}
+	type lval struct {
+		name  string   // a variable (plain assignment)
+		lists []string // or the lists to update at idx
+		idx   string
+	}
+	many := len(lhs) > 1
+	hold := func(v string) string { // with several assignments, values are fixed before any of them happens
+		if !many {
+			return v
+		}
+		n := t.fresh("t")
+		t.letAs(n, v)
+		return n
+	}
+	var lvs []lval
+	for _, l := range lhs {
+		switch x := unparen(l).(type) {
+		case *ast.IndexExpr:
+			if lists, _, ok := t.elemFields(x.X); ok { // a whole element of a slice of structs
+				lvs = append(lvs, lval{lists: lists, idx: hold(t.expr(x.Index))})
+			} else if d, ok := t.dest(x.X); ok && d.whole() {
+				lvs = append(lvs, lval{lists: []string{d.base}, idx: hold(t.expr(x.Index))})
+			} else {
+				return t.fail("assignment to an element of something that is not a local slice, array, parameter or field")
+			}
+		default:
+			if list, _, idx, ok := t.elemField(l); ok {
+				lvs = append(lvs, lval{lists: []string{list}, idx: hold(t.expr(idx))})
+			} else {
+				lvs = append(lvs, lval{name: t.lhs(l)})
+			}
+		}
+	}
+	var vals [][]string
+	for i, r := range rhs {
+		if ix, isIx := unparen(r).(*ast.IndexExpr); isIx {
+			if lists, _, ok := t.elemFields(ix.X); ok { // q[j]: the fields of that element
+				j := t.expr(ix.Index)
+				var fs []string
+				for _, l := range lists {
+					fs = append(fs, t.bindTmp(fmt.Sprintf("go_index %s %s", l, j)))
+				}
+				vals = append(vals, fs)
+				continue
+			}
+		}
+		ty := t.typeOf(lhs[i])
+		vals = append(vals, []string{hold(t.exprAs(r, ty))})
+	}
+	for i, lv := range lvs {
+		switch {
+		case lv.name == "_":
+		case lv.name != "":
+			t.letAs(lv.name, vals[i][0])
+		case len(lv.lists) != len(vals[i]):
+			return t.fail("assignment between elements of different kinds")
+		default:
+			for k, l := range lv.lists {
+				t.bindAs(l, fmt.Sprintf("go_update %s %s %s", l, lv.idx, vals[i][k]))
+			}
+		}
+	}
+	return next()
+}
+
+// x op= e, x++ where x is s[i] or q[i].f: the list to update and the index
+func (t *ft) elemLhs(e ast.Expr) (list, idx string, ok bool) {
+	if l, _, ix, ok := t.elemField(e); ok {
+		return l, t.expr(ix), true
+	}
+	if x, isIx := unparen(e).(*ast.IndexExpr); isIx {
+		if d, ok := t.dest(x.X); ok && d.whole() {
+			return d.base, t.expr(x.Index), true
+		}
+	}
+	return "", "", false
 }
 
 func (t *ft) stmt(s ast.Stmt, c *ctx, next cont) string {
@@ -974,15 +1447,22 @@ func (t *ft) stmt(s ast.Stmt, c *ctx, next cont) string {
 		return t.seq(func() string {
 			var parts []string
 			if len(x.Results) == 0 {
-				if len(t.named) == 0 {
+				if len(t.named) == 0 && len(t.fn.ResGo) > 0 {
 					return t.fail("return without values")
 				}
 				for _, v := range t.named {
 					parts = append(parts, t.names[v])
 				}
 			}
-			for _, r := range x.Results {
-				parts = append(parts, t.expr(r))
+			if len(x.Results) == 1 {
+				t.stmtCall = soleCall(x.Results[0])
+			}
+			for i, r := range x.Results {
+				if len(x.Results) == len(t.fn.ResGo) {
+					parts = append(parts, t.exprAs(r, t.fn.ResGo[i]))
+				} else {
+					parts = append(parts, t.expr(r))
+				}
 			}
 			if len(t.written) > 0 && len(x.Results) == 1 && len(t.fn.ResGo) > 1 {
 				return t.fail("return of a call with several results in a function that writes fields")
@@ -1001,6 +1481,13 @@ func (t *ft) stmt(s ast.Stmt, c *ctx, next cont) string {
 		}
 		if call, ok := x.X.(*ast.CallExpr); ok && t.ignored(call) {
 			return next()
+		}
+		if call, ok := x.X.(*ast.CallExpr); ok { // a call for its effects: what it writes, its panics
+			return t.seq(func() string {
+				t.stmtCall = call
+				t.call(call)
+				return next()
+			})
 		}
 		return t.fail("expression statement")
 	case *ast.DeferStmt:
@@ -1034,7 +1521,7 @@ func (t *ft) stmt(s ast.Stmt, c *ctx, next cont) string {
 						continue
 					}
 					v := t.info.Defs[n].(*types.Var)
-					out += fmt.Sprintf("let %s := %s in\n", t.declare(v), KindOf(v.Type()).zero())
+					out += fmt.Sprintf("let %s := %s in\n", t.declare(v), zeroOf(v.Type()))
 				}
 				return out + k0()
 			}
@@ -1057,6 +1544,10 @@ func (t *ft) stmt(s ast.Stmt, c *ctx, next cont) string {
 		return t.seq(func() string {
 			a, b := t.expr(x.Lhs[0]), t.expr(x.Rhs[0])
 			v := t.binop(op, t.typeOf(x.Lhs[0]), x.Lhs[0], x.Rhs[0], a, b)
+			if l, i, ok := t.elemLhs(x.Lhs[0]); ok {
+				t.bindAs(l, fmt.Sprintf("go_update %s %s %s", l, i, v))
+				return next()
+			}
 			return fmt.Sprintf("let %s := %s in\n%s", t.lhs(x.Lhs[0]), v, next())
 		})
 	case *ast.IncDecStmt:
@@ -1064,6 +1555,10 @@ func (t *ft) stmt(s ast.Stmt, c *ctx, next cont) string {
 			a, op := t.expr(x.X), " + 1"
 			if x.Tok == token.DEC {
 				op = " - 1"
+			}
+			if l, i, ok := t.elemLhs(x.X); ok {
+				t.bindAs(l, fmt.Sprintf("go_update %s %s %s", l, i, wrap(t.typeOf(x.X), a+op)))
+				return next()
 			}
 			return fmt.Sprintf("let %s := %s in\n%s", t.lhs(x.X), wrap(t.typeOf(x.X), a+op), next())
 		})
@@ -1073,6 +1568,7 @@ func (t *ft) stmt(s ast.Stmt, c *ctx, next cont) string {
 				return t.ifJoin(x, c, next)
 			}
 			return t.seq(func() string {
+				t.stmtCall = soleCall(x.Cond)
 				cnd := t.expr(x.Cond)
 				thenS := t.block(x.Body.List, c, next)
 				var elseS string
@@ -1167,6 +1663,7 @@ func (t *ft) ifJoin(x *ast.IfStmt, c *ctx, next cont) string {
 		pat = tuple(names)
 	}
 	return t.seq(func() string {
+		t.stmtCall = soleCall(x.Cond)
 		cnd := t.expr(x.Cond)
 		n0 := t.effects
 		join := func() string { return "@JOIN@" }
@@ -1275,64 +1772,10 @@ func inside(p token.Pos, n ast.Node) bool { return n != nil && n.Pos() <= p && p
 // the local variables that the given parts of the function assign / mention
 func (t *ft) assignedUsed(parts []ast.Node) (assigned, used map[*types.Var]bool) {
 	assigned, used = map[*types.Var]bool{}, map[*types.Var]bool{}
-	mark := func(e ast.Expr) {
-		if e == nil {
-			return
-		}
-		if id, ok := unparen(e).(*ast.Ident); ok {
-			if v := t.localVar(id); v != nil {
-				assigned[v] = true
-			}
-		}
-	}
-	return t.assignedUsedWith(parts, assigned, used, mark)
-}
-
-// the fields (of parameters) that the given parts assign, in the order of t.written
-func (t *ft) assignedPaths(parts []ast.Node) []*Input {
-	hit := map[*Input]bool{}
+	t.targets(parts, func(v *types.Var, _ bool, _ token.Pos) { assigned[v] = true }, func(*Input, bool, token.Pos) {})
 	for _, p := range parts {
 		ast.Inspect(p, func(n ast.Node) bool {
-			var lhs []ast.Expr
-			switch y := n.(type) {
-			case *ast.AssignStmt:
-				lhs = y.Lhs
-			case *ast.IncDecStmt:
-				lhs = []ast.Expr{y.X}
-			}
-			for _, l := range lhs {
-				if in := t.writtenPath(l); in != nil {
-					hit[in] = true
-				}
-			}
-			return true
-		})
-	}
-	var out []*Input
-	for _, in := range t.written {
-		if hit[in] {
-			out = append(out, in)
-		}
-	}
-	return out
-}
-
-func (t *ft) assignedUsedWith(parts []ast.Node, assigned, used map[*types.Var]bool, mark func(ast.Expr)) (map[*types.Var]bool, map[*types.Var]bool) {
-	for _, p := range parts {
-		ast.Inspect(p, func(n ast.Node) bool {
-			switch y := n.(type) {
-			case *ast.AssignStmt:
-				for _, l := range y.Lhs {
-					mark(l)
-				}
-			case *ast.IncDecStmt:
-				mark(y.X)
-			case *ast.RangeStmt:
-				if y.Tok == token.ASSIGN {
-					mark(y.Key)
-					mark(y.Value)
-				}
-			case *ast.Ident:
+			if y, ok := n.(*ast.Ident); ok {
 				if v := t.localVar(y); v != nil {
 					used[v] = true
 				}
@@ -1341,6 +1784,19 @@ func (t *ft) assignedUsedWith(parts []ast.Node, assigned, used map[*types.Var]bo
 		})
 	}
 	return assigned, used
+}
+
+// the fields (of parameters) that the given parts assign, in the order of t.written
+func (t *ft) assignedPaths(parts []ast.Node) []*Input {
+	hit := map[*Input]bool{}
+	t.targets(parts, func(*types.Var, bool, token.Pos) {}, func(in *Input, _ bool, _ token.Pos) { hit[in] = true })
+	var out []*Input
+	for _, in := range t.written {
+		if hit[in] && len(in.Path) > 0 { // (a parameter slice written through is a variable, not a path)
+			out = append(out, in)
+		}
+	}
+	return out
 }
 
 type rangeInfo struct {
@@ -1609,8 +2065,12 @@ func paramDecl(names, tys []string) string {
 // Translate translates the function or method called name ("F" / "T.M", or
 // "import/path:F" / "import/path:T.M" for a callee in another package) and records it.
 func (T *Translator) Translate(name string) *Func {
-	frag, ext := strings.HasSuffix(name, "#prefix"), strings.HasSuffix(name, "#extern")
-	base := strings.TrimSuffix(strings.TrimSuffix(name, "#prefix"), "#extern")
+	frag, ext, extw := strings.HasSuffix(name, "#prefix"), strings.HasSuffix(name, "#extern") || strings.HasSuffix(name, "#externw"), strings.HasSuffix(name, "#externw")
+	base := strings.TrimSuffix(strings.TrimSuffix(strings.TrimSuffix(name, "#prefix"), "#externw"), "#extern")
+	bindTo := ""
+	if i := strings.LastIndex(base, "@"); i >= 0 {
+		base, bindTo = base[:i], base[i+1:]
+	}
 	pkg, decl, coq := T.Pkg, base, T.Prefix+strings.Replace(base, ".", "_", 1)
 	if i := strings.LastIndex(base, ":"); i >= 0 {
 		path := base[:i]
@@ -1621,12 +2081,27 @@ func (T *Translator) Translate(name string) *Func {
 		pkg = T.others[path]
 		coq = T.Prefix + pkg.Types.Name() + "_" + strings.Replace(decl, ".", "_", 1)
 	}
+	if bindTo != "" {
+		coq += "_" + bindTo
+	}
 	if frag {
 		coq += "_prefix"
 	}
 	fd := pkg.Decls[decl]
-	fn := &Func{Name: name, Coq: coq, Pkg: pkg, Decl: fd}
+	fn := &Func{Name: name, Coq: coq, Pkg: pkg, Decl: fd, Bind: bindTo}
 	T.Order = append(T.Order, fn)
+	if ext && (fd == nil || fd.Recv != nil) { // a method, possibly of an interface: found through the type
+		fn.Extern = true
+		if m := lookupMethod(pkg, decl); m != nil {
+			T.Extern[key(m)] = true
+			T.ExternW[key(m)] = extw
+			fn.Text = fmt.Sprintf("(* %s: declared EXTERNAL - not translated; what each call of it returns is an input\n   (x_%s_<k>) of the definitions below that call it *)\n\n", name, m.Name())
+			return fn
+		}
+		fn.Err = fmt.Errorf("not found in the source")
+		fn.Text = fmt.Sprintf("(* %s: not found in the source *)\n\n", name)
+		return fn
+	}
 	if fd == nil || fd.Body == nil {
 		fn.Err = fmt.Errorf("not found in the source")
 		fn.Text = fmt.Sprintf("(* %s: not found in the source *)\n\n", name)
@@ -1635,12 +2110,13 @@ func (T *Translator) Translate(name string) *Func {
 	fn.Obj, _ = pkg.Info.Defs[fd.Name].(*types.Func)
 	if ext { // declared external: nothing is translated, its calls become inputs (see oracle)
 		fn.Extern = true
-		if fn.Obj == nil || fd.Recv != nil {
-			fn.Err = fmt.Errorf("only package-level functions can be declared #extern")
+		if fn.Obj == nil {
+			fn.Err = fmt.Errorf("not type-checked")
 			fn.Text = fmt.Sprintf("(* %s: NOT TRANSLATABLE: %v *)\n\n", name, fn.Err)
 			return fn
 		}
 		T.Extern[key(fn.Obj)] = true
+		T.ExternW[key(fn.Obj)] = extw
 		fn.Text = fmt.Sprintf("(* %s: declared EXTERNAL - not translated; what each call of it returns is an input\n   (x_%s_<k>) of the definitions below that call it *)\n\n", name, fd.Name.Name)
 		return fn
 	}
@@ -1685,7 +2161,11 @@ func (T *Translator) Translate(name string) *Func {
 		fn.Text = fmt.Sprintf("(* %s: NOT TRANSLATABLE: %v *)\n\n", where, fn.Err)
 	}
 	if fn.Obj != nil && !frag { // (a fragment is never the target of a call)
-		T.Funcs[key(fn.Obj)] = fn
+		k := key(fn.Obj)
+		if bindTo != "" {
+			k += "@" + bindTo
+		}
+		T.Funcs[k] = fn
 	}
 	return fn
 }
@@ -1711,11 +2191,49 @@ func (T *Translator) run(fn *Func, pure bool) *ft {
 	}
 	t.prefix = fn.Prefix
 	t.oracles = map[*ast.CallExpr][]*Input{}
+	t.scalar, t.bound, t.listUsed, t.writePos = map[*types.Var]*Input{}, map[*types.Var]types.Type{}, map[string]bool{}, map[string][]token.Pos{}
+	if fn.Bind != "" { // "F@T": interface parameters that T (or *T) implements stand for a T
+		obj := T.Pkg.Types.Scope().Lookup(fn.Bind)
+		if obj == nil {
+			t.fail("type %s not found", fn.Bind)
+			return t
+		}
+		for _, p := range fn.Params {
+			if it, ok := p.Type().Underlying().(*types.Interface); ok && it.NumMethods() > 0 &&
+				(types.Implements(obj.Type(), it) || types.Implements(types.NewPointer(obj.Type()), it)) {
+				t.bound[p] = obj.Type()
+			}
+		}
+		if len(t.bound) == 0 {
+			t.fail("no interface parameter that %s implements", fn.Bind)
+			return t
+		}
+	}
+	// parameters of a supported type are inputs and local variables at once
+	var scalar []*Input
+	for i, p := range fn.Params {
+		if k := KindOf(p.Type()); k != KNone {
+			base := "v_" + p.Name()
+			if p.Name() == "" || p.Name() == "_" {
+				base = fmt.Sprintf("v_arg%d", i)
+			}
+			n := t.unique(base)
+			t.names[p] = n
+			in := &Input{Name: n, Kind: k, Param: i, Type: p.Type()}
+			scalar = append(scalar, in)
+			t.scalar[p] = in
+		}
+	}
 	stmts := fn.Decl.Body.List
 	if t.prefix > 0 {
 		stmts = stmts[:t.prefix]
 	}
+	t.findListUses(stmts)
 	t.collectWritten(stmts)
+	t.aliasCheck(fn.Decl.Body, stmts)
+	if t.err != nil {
+		return t
+	}
 	t.retIndex = map[*ast.ReturnStmt]int{}
 	ast.Inspect(fn.Decl.Body, func(n ast.Node) bool {
 		if r, ok := n.(*ast.ReturnStmt); ok {
@@ -1741,28 +2259,15 @@ func (T *Translator) run(fn *Func, pure bool) *ft {
 			fn.Results = append(fn.Results, in.Kind)
 		}
 	}
-	// parameters of a supported type are inputs and local variables at once
-	var scalar []*Input
-	for i, p := range fn.Params {
-		if k := KindOf(p.Type()); k != KNone {
-			base := "v_" + p.Name()
-			if p.Name() == "" || p.Name() == "_" {
-				base = fmt.Sprintf("v_arg%d", i)
-			}
-			n := t.unique(base)
-			t.names[p] = n
-			scalar = append(scalar, &Input{Name: n, Kind: k, Param: i, Type: p.Type()})
-		}
-	}
 	head := ""
 	for i := 0; i < sig.Results().Len(); i++ {
 		if r := sig.Results().At(i); t.prefix > 0 {
 			if r.Name() != "" && r.Name() != "_" && KindOf(r.Type()) != KNone {
-				head += fmt.Sprintf("let %s := %s in\n", t.declare(r), KindOf(r.Type()).zero())
+				head += fmt.Sprintf("let %s := %s in\n", t.declare(r), zeroOf(r.Type()))
 			}
 		} else if r.Name() != "" && r.Name() != "_" {
 			t.named = append(t.named, r)
-			head += fmt.Sprintf("let %s := %s in\n", t.declare(r), KindOf(r.Type()).zero())
+			head += fmt.Sprintf("let %s := %s in\n", t.declare(r), zeroOf(r.Type()))
 		} else if r.Name() == "_" {
 			t.fail("blank named result")
 		}
@@ -1789,7 +2294,11 @@ func (T *Translator) run(fn *Func, pure bool) *ft {
 			for _, v := range t.vars {
 				parts = append(parts, t.names[v])
 			}
-			parts = append(parts, t.writtenNames()...)
+			for _, w := range t.written {
+				if t.scalar[t.fn.Params[w.Param]] != w { // (a parameter written through is among the variables already)
+					parts = append(parts, w.Name)
+				}
+			}
 			if len(parts) == 0 {
 				parts = []string{"tt"}
 			}
@@ -1827,6 +2336,9 @@ func (T *Translator) run(fn *Func, pure bool) *ft {
 	}
 	fn.Written = t.written
 	for _, in := range t.written {
+		if t.prefix > 0 && t.scalar[fn.Params[in.Param]] == in {
+			continue
+		}
 		fn.Vars = append(fn.Vars, in.Name)
 		if t.prefix > 0 {
 			fn.Results = append(fn.Results, in.Kind)
@@ -1883,7 +2395,11 @@ func (T *Translator) finish(fn *Func, t *ft, file string) {
 	}
 	for _, in := range fn.Inputs {
 		if in.Oracle != "" {
-			note += fmt.Sprintf(".\n   %s = what call %s of %s returned", in.Name, in.Oracle[strings.Index(in.Oracle, "#")+1:], in.Oracle[:strings.Index(in.Oracle, "#")])
+			what := "returned"
+			if in.Written {
+				what = "left in its slice argument"
+			}
+			note += fmt.Sprintf(".\n   %s = what call %s of %s %s", in.Name, in.Oracle[strings.Index(in.Oracle, "#")+1:], in.Oracle[:strings.Index(in.Oracle, "#")], what)
 		}
 	}
 	full := res
@@ -1899,6 +2415,16 @@ func (T *Translator) finish(fn *Func, t *ft, file string) {
 	fn.Text = b.String()
 }
 
+// does the text mention something defined in coq/Lib/GoSem.v?
+func usesSem(text string) bool {
+	for _, w := range []string{"list Z", "go_len", "go_index", "go_update", "go_slice", "go_splice", "go_make", "go_zeros", "go_copy", "go_buf_"} {
+		if strings.Contains(text, w) {
+			return true
+		}
+	}
+	return false
+}
+
 // File is the text of the generated .v file for the functions translated so far.
 func (T *Translator) File() string {
 	var b strings.Builder
@@ -1906,7 +2432,7 @@ func (T *Translator) File() string {
 	b.WriteString("From Coq Require Import ZArith Bool.\n")
 	sem := false
 	for _, f := range T.Order {
-		if f.Err == nil && !f.Extern && (f.Monadic || f.Prefix > 0 || strings.Contains(f.Text, "go_len") || strings.Contains(f.Text, "list Z")) {
+		if f.Err == nil && !f.Extern && (f.Monadic || f.Prefix > 0 || usesSem(f.Text)) {
 			sem = true
 		}
 	}
@@ -1914,6 +2440,7 @@ func (T *Translator) File() string {
 		b.WriteString("From Coq Require Import List.\nFrom FV Require Import Lib.GoSem.\n")
 	}
 	b.WriteString("Open Scope Z_scope.\n\n")
+	b.WriteString(T.errTable())
 	for _, f := range T.Order {
 		b.WriteString(f.Text)
 	}
